@@ -815,6 +815,8 @@ impl Session {
             receive_map.insert(stream_id, receive_tx);
         }
 
+        #[cfg(anytls_rs_verif)]
+        verif_sched::point("open.rx_registered").await;
         // Store the stream
         {
             let mut streams = self.streams.write().await;
@@ -1485,6 +1487,7 @@ pub mod verif_sched {
         "close.flag_set",
         "close.before_writer",
         "open.checked",
+        "open.rx_registered",
         "open.registered",
         "pump.loop",
     ];
